@@ -228,6 +228,19 @@ CHECKS['C06'] = {
     'technique': 'effect summaries under the element abstraction + term-shape/guard matching of the scoring loop + per-variant scale typing',
 }
 
+CHECKS['C10'] = {
+    'category': 'other',
+    'text': 'For every objective and step budget, structurally: the update statements of Adam (m, v, bias-corrected theta update, step counter) and SGD '
+            '(velocity, theta, update order, look-ahead gradient point under the nesterov flag) are extracted from MIR, canonicalised and compared with '
+            'the published recurrences; the loops leave only on t >= maxsteps or on the convergence flag, which is set only under max relative '
+            'parameter change < EPSILON; no nondeterminism source is reachable; LM overwrites the parameters only under rho > 0 with rho\'s numerator '
+            '|r|^2 - |r_new|^2 at the proposal, refreshes J, J^T J, J^T r, r on acceptance and returns |r|^2/(n-p) * inv(J^T J). '
+            'LM damping schedule and convergence are not decided.',
+    'design_ref': 'DESIGN.md 4.10, 3 (E-WIRE dependency signatures, must-check)',
+    'note': 'Automatic-differentiation wrappers (reverse::Var operator impls, val(), grad().wrt()) are mapped to their arithmetic / treated as opaque pure functions.',
+    'technique': 'canonical-form comparison of update statements extracted from MIR + CFG exit/guard analysis + call-graph deny-list',
+}
+
 NOT_APPLICABLE = {
     'C09': 'accuracy of the Lanczos/asymptotic/Abramowitz-Stegun approximations over a continuum of arguments is a numerical '
            'quantity; no structural clause is a necessary condition without freezing coefficient tables (a brittle proxy); see DESIGN.md 4.9',
